@@ -185,6 +185,90 @@ def check_C17(run):
     return run.finish(rule="every 3x3 pattern and random patterns of order 1..5 with weights +-2^e (ties, zero diagonals, structurally singular ones included) and random mantissas, real and complex, single and double: matching, optimality (brute force over all perfect matchings), dual scalings, untouched arrays")
 
 
+def check_C20(run):
+    cfg = "SluBridge.cfg" if run.tier == "quick" else "SluBridge_t.cfg"
+    objs, st, out = vlib.tlc_generate("C20_hist", "SluBridge.tla", cfg)
+    if "No error has been found" not in out:
+        raise vlib.Broken("SluBridge generator failed:\n" + out[-2000:])
+    run.mc.append({"name": "SluBridge", "module": "SluBridge.tla", "cfg": cfg, "states": st["generated"], "distinct": st["distinct"], "depth": st["depth"], "wall_s": 0, "ok": True, "coverage": {}})
+    hists = [o["hist"] for o in objs]
+    g = Gen(run.seed * 1000 + 20)
+    scen = {}
+    for ty in (("d", "z") if run.tier == "quick" else ("d", "z", "s", "c")):
+        scen[ty] = [F.bridge_scenario(g, "C20-bridge-%05d-%s" % (i, ty), ty, h) for i, h in enumerate(hists)]
+    run.conform("bridge", scen, ["C20."])
+    return run.finish(rule="TLC enumerates every request history (factor / solve / free) over two handles up to length 5 (7 thorough) that follows the protocol; each is executed through c_fortran_?gssv_ with 1-based copies of generated matrices, nrhs 1..3, ldb >= n; every solve is compared bit for bit with the simple driver on the same system", exhaustive=True)
+
+
+def check_C09(run):
+    # schedules: TLC enumerates every interleaving of the scheduler grants of two (three) calls
+    objs2, st2, out2 = vlib.tlc_generate("C09_sched2", "SluConc.tla", "SluConc.cfg")
+    objs3, st3, out3 = vlib.tlc_generate("C09_sched3", "SluConc.tla", "SluConc_3.cfg")
+    for nm, st, out in (("SluConc_2x5", st2, out2), ("SluConc_3x3", st3, out3)):
+        if "No error has been found" not in out:
+            raise vlib.Broken("SluConc failed:\n" + out[-2000:])
+        run.mc.append({"name": nm, "module": "SluConc.tla", "cfg": "SluConc.cfg", "states": st["generated"], "distinct": st["distinct"], "depth": st["depth"], "wall_s": 0, "ok": True, "coverage": {}})
+    scheds = [o["sched"] for o in objs2] + [o["sched"] for o in objs3]
+    g = Gen(run.seed * 1000 + 9)
+    g.r.shuffle(scheds)
+    run.prefixes = ["C09."]
+    nsched = sizes(run, 260, len(scheds))
+    results = []
+    for ty in ("d", "z"):
+        groups = []
+        for gi, sc in enumerate(scheds[: nsched if ty == "d" else nsched // 3]):
+            k = max(sc) + 1
+            groups.append({"scen": [F.mt_scenario(g, "C09-mt%s%04dt%d-00000-%s" % (ty, gi, t, ty), ty) for t in range(k)], "schedule": sc, "quantum": g.r.choice([1, 2, 3, 5, 8, 13, 40])})
+        results += vlib.execute_mt("C09_mt_" + ty, run.build("v0"), ty, groups, tv_env={"MODE": "light"})
+    for c in run.judge(results):
+        run.report(c)
+    # histories A ; B ; A in one thread
+    hs = {ty: [F.repeat_scenario(g, "C09-repeat-%05d-%s" % (i, ty), ty) for i in range(sizes(run, 200, 1500) // (1 if ty == "d" else 3))] for ty in ("d", "z", "s")}
+    run.conform("repeat", hs, ["C09."], tv_env={"MODE": "light"})
+    # free-running threads under ThreadSanitizer (observer): a report whose stack is inside SRC/ is a violation
+    tsan_groups = {}
+    nts = sizes(run, 60, 600)
+    races = {}
+    for ty in ("d", "z"):
+        groups = [{"scen": [F.mt_scenario(g, "C09-tsan%s%04dt%d-00000-%s" % (ty, gi, t, ty), ty) for t in range(4)], "schedule": [], "quantum": 1} for gi in range(nts if ty == "d" else nts // 3)]
+        res = vlib.execute_mt("C09_tsan_" + ty, run.build("v3"), ty, groups, free=True, env={"TSAN_OPTIONS": "exitcode=96:halt_on_error=0"}, tv_env={"MODE": "light"})
+        for c in run.judge(res):
+            if not (c["clause"].startswith("C19.abnormal_end_sanitizer") or c["clause"].startswith("C19.sanitizer_")):
+                run.report(c)
+        import re as _re
+        for r_ in res:
+            for ids, log in r_["san"]:
+                for rep in log.split("WARNING: ThreadSanitizer: ")[1:]:
+                    kind = rep.split("(")[0].strip().replace(" ", "_")
+                    # the accessing code itself (frame #0 of an access stack) must be library code
+                    tops = _re.findall(r"\n    #0 (\w+) (\S+?):\d+", rep)
+                    lib = [fn for fn, path in tops if path.startswith("/repo/SRC/") or path.startswith("/repo/CBLAS/")]
+                    if lib:
+                        races.setdefault("%s_in_%s" % (kind, lib[0]), (ids, r_))
+                    else:
+                        run.notes.append("ThreadSanitizer report outside the library (harness): " + "; ".join("%s %s" % t for t in tops[:2]))
+    for key, (ids, r_) in races.items():
+        scen = r_["scen"][ids[0]]
+        run.report({"scenario": scen, "clause": "C09." + key, "fn": "tsan", "ty": r_["ty"], "trace_lines": []})
+    run.observers["tsan"] = {"groups_of_4_threads": nts + nts // 3, "reports_in_library": len(races)}
+    # structural check: no writable static data in the library objects (a reintroduced static buffer is shared state)
+    import subprocess as _sp
+    lib = os.path.join(run.build("v0"), "libsuperlu_v.a")
+    nm = _sp.run(["nm", lib], stdout=_sp.PIPE, text=True).stdout
+    cur = None; bad = []
+    for ln in nm.splitlines():
+        if ln.endswith(".o:"):
+            cur = ln[:-1]
+        else:
+            parts = ln.split()
+            if len(parts) >= 3 and parts[-2] in ("b", "B", "d", "D", "C") and cur and cur.startswith("SRC_"):
+                bad.append((cur, parts[-1]))
+    run.observers["nm_writable_statics"] = {"objects_scanned": nm.count(".o:"), "found": bad[:10]}
+    for obj, sym in bad:
+        run.report({"scenario": {"id": "C09-static-%s" % sym, "lines": ["# writable static %s in %s" % (sym, obj)]}, "clause": "C09.writable_static_" + sym, "fn": "nm", "ty": "d", "trace_lines": []})
+    return run.finish(rule="TLC-enumerated interleavings (2 calls x 5 grants: 252; 3 calls x 3 grants: 1680) replayed with a hand-off scheduler, each call compared bit for bit with the same call alone; A;B;A histories; 4-thread free-running groups under ThreadSanitizer; nm scan for writable statics")
+
+
 def check_C18(run):
     objs, st, out = vlib.tlc_generate("C18_screen", "SluScreen.tla", "SluScreen.cfg")
     if "No error has been found" not in out:
